@@ -24,8 +24,16 @@ type opSpec struct {
 }
 
 func scenario(threads [][]opSpec, fine bool, pb [2]int) *mc.Scenario {
-	return &mc.Scenario{Name: fmt.Sprintf("ttlmem/one-key/%v/fine=%v", threads, fine), PB: pb, Fine: fine, Main: func(w *mc.World) {
-		c := cache.NewTTLMemCache(4, 0)
+	return scenarioN(4, threads, fine, pb)
+}
+
+func scenarioN(size int, threads [][]opSpec, fine bool, pb [2]int) *mc.Scenario {
+	nm := fmt.Sprintf("ttlmem/one-key/%v/fine=%v", threads, fine)
+	if size != 4 {
+		nm = fmt.Sprintf("ttlmem/size=%d/one-key/%v/fine=%v", size, threads, fine)
+	}
+	return &mc.Scenario{Name: nm, PB: pb, Fine: fine, Main: func(w *mc.World) {
+		c := cache.NewTTLMemCache(size, 0)
 		_ = c.Set(bg, "k", []byte("v0"))
 		init := &model{"v0"}
 		var clk mc.Clock
@@ -115,6 +123,20 @@ func scenario(threads [][]opSpec, fine bool, pb [2]int) *mc.Scenario {
 			}
 			w.Failf("no linearization of the concurrent calls %v explains their results and the final value %q", d, final)
 		}
+		// epilogue (sequential): whatever the race left behind, the cache must still behave like a cache -
+		// a key set now is readable, and stays readable while fewer than `size` other keys are touched
+		if err := c.Set(bg, "k", []byte("e1")); err != nil {
+			w.Failf("after the concurrent phase Set(k) fails: %v", err)
+		}
+		if v, err := c.Get(bg, "k"); err != nil || string(v) != "e1" {
+			w.Failf("after the concurrent phase a fresh Set(k,e1) is not readable: Get = %q, %v", v, err)
+		}
+		for i := 1; i < size; i++ {
+			_ = c.Set(bg, fmt.Sprint("other", i), []byte("o"))
+			if v, err := c.Get(bg, "k"); err != nil || string(v) != "e1" {
+				w.Failf("after the concurrent phase: Set(k,e1), then %d other key(s) set (size %d): Get(k) = %q, %v", i, size, v, err)
+			}
+		}
 	}}
 }
 
@@ -130,6 +152,17 @@ func main() {
 	var scs []*mc.Scenario
 	for _, p := range progs {
 		scs = append(scs, scenario(p, false, [2]int{3, 4}), scenario(p, true, [2]int{2, 2}))
+	}
+	RM := opSpec{"remove", ""}
+	for _, p := range [][][]opSpec{
+		{{RM}, {RM, {"set", "v4"}}},
+		{{RM}, {GR, {"set", "v5"}}},
+		{{RM, {"set", "v6"}}, {RM, {"set", "v7"}}},
+		{{GR}, {RM}, {{"set", "v8"}}},
+	} {
+		for _, size := range []int{1, 2} {
+			scs = append(scs, scenarioN(size, p, false, [2]int{3, 4}), scenarioN(size, p, true, [2]int{2, 2}))
+		}
 	}
 	mc.Main(r, scs)
 }
